@@ -118,6 +118,37 @@ def table():
     for kind in ("exact", "min", "max"):
         row(f"selection.{kind}.with_cumulative3.k=n+1", REJECT, lambda kind=kind: sel_cum([3], 1, 3, kind), "selection")
         row(f"selection.{kind}.with_cumulative3.k=n", ACCEPT, lambda kind=kind: sel_cum([3], 1, 2, kind), "selection")
+    # a worker required twice by one task (directly and through a selection, in either order, or through two
+    # selections): the model has one busy interval per (worker, task), the second requirement would silently replace
+    # the first and the task would no longer occupy the worker it requires
+    def twice(order):
+        P()
+        t = T("a")
+        w0, w1, w2 = (ps.Worker(name=f"w{i}") for i in range(3))
+        s01 = ps.SelectWorkers(list_of_workers=[w0, w1], nb_workers_to_select=1)
+        if order == "direct_then_selection":
+            t.add_required_resource(w0)
+            t.add_required_resource(s01)
+        elif order == "selection_then_direct":
+            t.add_required_resource(s01)
+            t.add_required_resource(w0)
+        elif order == "two_selections_sharing":
+            t.add_required_resource(s01)
+            t.add_required_resource(ps.SelectWorkers(list_of_workers=[w1, w2], nb_workers_to_select=1))
+        elif order == "direct_twice":
+            t.add_required_resource(w0)
+            t.add_required_resource(w0)
+        elif order == "direct_and_disjoint_selection":
+            t.add_required_resource(w2)
+            t.add_required_resource(s01)
+        elif order == "two_disjoint_selections":
+            w3 = ps.Worker(name="w3")
+            t.add_required_resource(s01)
+            t.add_required_resource(ps.SelectWorkers(list_of_workers=[w2, w3], nb_workers_to_select=1))
+    for order in ("direct_then_selection", "selection_then_direct", "two_selections_sharing", "direct_twice"):
+        row(f"required_twice.{order}", REJECT, lambda order=order: twice(order), "required_twice")
+    for order in ("direct_and_disjoint_selection", "two_disjoint_selections"):
+        row(f"required_twice.{order}", ACCEPT, lambda order=order: twice(order), "required_twice")
     # "from fewer than two": a single entry, whatever it is (a cumulative worker of any size is ONE entry)
     for kind in ("exact", "min", "max"):
         for size in (2, 4):
